@@ -70,7 +70,24 @@ func verifC12GenConfig(thorough, slow bool) *rapid.Generator[verifC12Config] {
 		cfg := verifC12Config{Nodes: 3}
 		if thorough {
 			cfg.Nodes = rapid.SampledFrom([]int{3, 3, 5}).Draw(t, "nodes")
-			cfg.Pebble = rapid.IntRange(0, 2).Draw(t, "pebble") == 0
+			switch rapid.IntRange(0, 5).Draw(t, "storage") {
+			case 0, 1:
+				cfg.Pebble = true
+			case 2:
+				cfg.Pebble, cfg.Kill = true, true
+			}
+		}
+		// VERIF_C12_FORCE (kill, pebble, five) pins a storage/shape class, for
+		// mutation experiments and debugging
+		force := os.Getenv("VERIF_C12_FORCE")
+		if strings.Contains(force, "pebble") {
+			cfg.Pebble = true
+		}
+		if strings.Contains(force, "kill") {
+			cfg.Pebble, cfg.Kill = true, true
+		}
+		if strings.Contains(force, "five") {
+			cfg.Nodes = 5
 		}
 		cfg.Slots = rapid.IntRange(2, 4).Draw(t, "slots")
 		cfg.TickMS = rapid.IntRange(2, 5).Draw(t, "tickMS")
@@ -85,6 +102,13 @@ func verifC12GenConfig(thorough, slow bool) *rapid.Generator[verifC12Config] {
 		cfg.Workers = rapid.IntRange(1, 4).Draw(t, "workers")
 		cfg.Trigger = rapid.SampledFrom([]uint64{0, 100000, 100000, 2, 3, 5, 8, 16, 16, 40, 40, 120}).Draw(t, "trigger")
 		cfg.SMKind = rapid.SampledFrom([]int{0, 1, 2, 2}).Draw(t, "smKind") // 2 = what the production FSM implements
+		if cfg.Kill {
+			// a power loss between Apply and MarkApplied re-applies on a state
+			// machine without a durable applied index; that window is inherent
+			// to the two-store design and closed by DurableAppliedStateMachine,
+			// so power losses are only judged with that flavour
+			cfg.SMKind = 2
+		}
 		cfg.MaxSizePerMsg = rapid.SampledFrom([]uint64{0, 0, 64, 256, 4096}).Draw(t, "maxSizePerMsg")
 		cfg.MaxInflight = rapid.SampledFrom([]int{0, 1, 2, 8}).Draw(t, "maxInflight")
 		cfg.MaxApplying = rapid.SampledFrom([]int{0, 0, 1, 4}).Draw(t, "maxApplying")
@@ -121,6 +145,7 @@ func verifC12GenConfig(thorough, slow bool) *rapid.Generator[verifC12Config] {
 				restarts++
 				st.Nodes = verifC12Subset(t, cfg.Nodes, minority, "restarted")
 				st.DownMS = rapid.SampledFrom([]int{0, 30, 120, 300}).Draw(t, "down")
+				st.Unsynced = rapid.SampledFrom([]int{0, 0, 30, 100}).Draw(t, "unsynced")
 			case "transfer":
 				st.Slot = rapid.IntRange(1, cfg.Slots).Draw(t, "slot")
 				st.Nodes = []int{rapid.IntRange(1, cfg.Nodes).Draw(t, "target")}
@@ -135,6 +160,7 @@ func verifC12GenConfig(thorough, slow bool) *rapid.Generator[verifC12Config] {
 				restarts++
 				st.Slot = rapid.IntRange(1, cfg.Slots).Draw(t, "slot")
 				st.DownMS = rapid.SampledFrom([]int{0, 30, 120, 300}).Draw(t, "down")
+				st.Unsynced = rapid.SampledFrom([]int{0, 0, 30, 100}).Draw(t, "unsynced")
 			}
 			if slow {
 				st.PauseMS *= 2
@@ -288,7 +314,7 @@ func verifC12Run(cfg verifC12Config, settleLimit time.Duration) (out verifC12Out
 
 	// fault script
 	time.Sleep(time.Duration(cfg.TickMS*cfg.ElectionTick) * time.Millisecond)
-	for _, st := range cfg.Steps {
+	for stepNo, st := range cfg.Steps {
 		switch st.Kind {
 		case "isolateLeader", "restartLeader":
 			leader, _ := c.leaderOf(st.Slot)
@@ -330,8 +356,14 @@ func verifC12Run(cfg verifC12Config, settleLimit time.Duration) (out verifC12Out
 			if c.inflight.Load() > 0 {
 				out.restartBusy++
 			}
-			for _, a := range st.Nodes {
-				if err := c.nodes[a-1].stop(); err != nil && out.machinery == "" {
+			for i, a := range st.Nodes {
+				var err error
+				if cfg.Kill {
+					err = c.nodes[a-1].kill(st.Unsynced, uint64(cfg.Seed)+uint64(stepNo*16+i))
+				} else {
+					err = c.nodes[a-1].stop()
+				}
+				if err != nil && out.machinery == "" {
 					out.machinery = "close: " + err.Error()
 				}
 			}
@@ -430,6 +462,7 @@ func (c *verifC12Cluster) settle(limit time.Duration, out *verifC12Outcome) stri
 	why := "no poll"
 	for time.Now().Before(deadline) {
 		time.Sleep(poll)
+		roundSeq := c.hist.now()
 		cur, ok, lagSlot := "", true, 0
 		for s := 1; ok && s <= c.cfg.Slots; s++ {
 			var commit uint64
@@ -472,6 +505,7 @@ func (c *verifC12Cluster) settle(limit time.Duration, out *verifC12Outcome) stri
 		if cur == prev {
 			stable++
 			if stable >= need {
+				c.hist.SettleSeq = roundSeq
 				return ""
 			}
 		} else {
@@ -532,8 +566,8 @@ func verifC12Checks() int {
 
 func verifC12Describe(cfg verifC12Config) string {
 	var sb strings.Builder
-	fmt.Fprintf(&sb, "nodes=%d slots=%d tick=%dms el=%d hb=%d prevote=%v cq=%v workers=%d trigger=%d sm=%d pebble=%v msg=%d infl=%d applying=%d link=%+v perSlot=%d window=%d gap=%dus bias=%d proposers=%d sticky=%v seed=%d steps=",
-		cfg.Nodes, cfg.Slots, cfg.TickMS, cfg.ElectionTick, cfg.HeartbeatTick, cfg.PreVote, cfg.CheckQuorum, cfg.Workers, cfg.Trigger, cfg.SMKind, cfg.Pebble,
+	fmt.Fprintf(&sb, "nodes=%d slots=%d tick=%dms el=%d hb=%d prevote=%v cq=%v workers=%d trigger=%d sm=%d pebble=%v kill=%v msg=%d infl=%d applying=%d link=%+v perSlot=%d window=%d gap=%dus bias=%d proposers=%d sticky=%v seed=%d steps=",
+		cfg.Nodes, cfg.Slots, cfg.TickMS, cfg.ElectionTick, cfg.HeartbeatTick, cfg.PreVote, cfg.CheckQuorum, cfg.Workers, cfg.Trigger, cfg.SMKind, cfg.Pebble, cfg.Kill,
 		cfg.MaxSizePerMsg, cfg.MaxInflight, cfg.MaxApplying, cfg.Link, cfg.PerSlot, cfg.Window, cfg.GapUS, cfg.LeaderBias, cfg.Proposers, cfg.Sticky, cfg.Seed)
 	for _, st := range cfg.Steps {
 		fmt.Fprintf(&sb, "[%s %v s%d down%d +%dms]", st.Kind, st.Nodes, st.Slot, st.DownMS, st.PauseMS)
@@ -576,6 +610,7 @@ func TestVerifC12Replicas(t *testing.T) {
 	jobs := make(chan job)
 	var mu sync.Mutex // serialises evidence bookkeeping and the verdict
 	var failure string
+	knownSaved := 0
 	var wg sync.WaitGroup
 	for w := 0; w < parallel; w++ {
 		wg.Add(1)
@@ -585,6 +620,24 @@ func TestVerifC12Replicas(t *testing.T) {
 				out := verifC12Run(j.cfg, settleLimit)
 				facts := verifC12Check(out.hist)
 				mu.Lock()
+				if len(facts.KnownClass) > 0 {
+					// a real violation of clause (E), of the one class recorded under
+					// verifC12SigForwarded. Listed as known => report it and keep
+					// judging everything else; not listed => it fails the check.
+					path := ""
+					if knownSaved < 3 {
+						knownSaved++
+						path = kit.SaveReplay("C12", t.Name()+"-known", "json", out.hist.marshal())
+					}
+					t.Logf("run %d: %d acknowledgement(s) by a node that did not lead the entry's term (%d acknowledged writes lost) history=%s\n  %s", j.i, len(facts.KnownClass), facts.AckedLost, path, strings.Join(facts.KnownClass[:1], "\n  "))
+					if !kit.KnownFinding("C12", verifC12SigForwarded) {
+						facts.Violations = append(facts.Violations, facts.KnownClass...)
+					} else {
+						col.AddExtra("c12_known_finding_runs", 1)
+						col.AddExtra("c12_known_finding_bad_acks", int64(len(facts.KnownClass)))
+						col.AddExtra("c12_known_finding_acked_writes_lost", int64(facts.AckedLost))
+					}
+				}
 				if len(facts.Violations) > 0 {
 					if failure == "" {
 						path := kit.SaveReplay("C12", t.Name(), "json", out.hist.marshal())
@@ -632,7 +685,9 @@ func TestVerifC12Replicas(t *testing.T) {
 				k.LabelIf(out.unsettled == "", "settled: end state judged")
 				k.LabelIf(out.nudges > 0, "settle needed a leadership nudge (follower stuck behind)")
 				k.LabelIf(out.unresolved > 0, "some futures never resolved")
+				k.LabelIf(len(facts.KnownClass) > 0, "KNOWN FINDING hit: ack by a node that did not lead the entry's term")
 				k.LabelIf(j.cfg.Pebble, "pebble raftlog")
+				k.LabelIf(facts.Kills > 0, "power-loss restart (pebble crash image)")
 				k.LabelIf(j.cfg.Nodes == 5, "5 nodes")
 				k.Label(fmt.Sprintf("state machine flavour %d", j.cfg.SMKind))
 				col.AddExtra("c12_applies", int64(facts.Applies))
